@@ -5,7 +5,7 @@ Model/Parser.v's `parse_on st0 f lenient tokens` starts from `ps_empty` whatever
 `parse_resets_at_entry : parse_on st0 = parse_from ps_empty`, where `parse_from st` is the same body run on a parser
 object whose scratch maps hold `st`), so C05's theorems (`parse_ignores_scratch`, `reuse_eq_fresh`) speak for the code
 exactly as long as DefaultArgsParser.parse begins by resetting BOTH scratch maps and the parser object carries no other
-state.  `unfixed_reuse_refuted` shows what happens otherwise (the behaviour before the repair: only `_arguments` reset).
+state.  `reuse_unfixed_refuted` shows what happens otherwise (the behaviour before the repair: only `_arguments` reset).
 This check reads clikit/args/default_args_parser.py with `ast` and fails (exit 2 / Unsupported) unless
   * class DefaultArgsParser has a method `parse(self, args, fmt, lenient=False)`;
   * its first two statements (after an optional docstring) are `self._arguments = OrderedDict()` and
